@@ -2,6 +2,7 @@
 // Oracle: exact negacyclic product per (row, column), summed in 128-bit integers.
 #include <pthread.h>
 #include "lib.h"
+#include "ops.h"
 #include "oracle.h"
 
 static long double pair_E(uint64_t N, const int64_t* a, const int64_t* b) {
@@ -25,8 +26,8 @@ static void one_case(uint64_t N, uint64_t nrows, uint64_t ncols, uint64_t a_size
   snprintf(key, sizeof key, "vmp_apply_dft|%s,%s,%s,%s%s%s", N < 8 ? "N<8" : "N>=8",
            res_size == 0 ? "res_size=0" : (res_size < ncols ? ((col_max & 1) ? "res<ncols,odd" : "res<ncols,even") : (res_size == ncols ? ((ncols & 1) ? "res=ncols,odd" : "res=ncols,even") : "res>ncols")),
            a_size == 0 ? "a_size=0" : (a_size < nrows ? "a<nrows" : (a_size == nrows ? "a=nrows" : "a>nrows")),
-           magn ? "boundary" : "small", native ? "" : ",generic", "");
-  if (!case_begin(key, "N=%" PRIu64 " nrows=%" PRIu64 " ncols=%" PRIu64 " a_size=%" PRIu64 " res_size=%" PRIu64 " asl=%u disp=%s magn=%d rep=%u", N, nrows, ncols, a_size, res_size, aslc, native ? "native" : "generic", magn, rep))
+           magn ? "boundary" : "small", native == DISP_NATIVE ? "" : ",", native == DISP_NATIVE ? "" : disp_name[native & 3]);
+  if (!case_begin(key, "N=%" PRIu64 " nrows=%" PRIu64 " ncols=%" PRIu64 " a_size=%" PRIu64 " res_size=%" PRIu64 " asl=%u disp=%s magn=%d rep=%u", N, nrows, ncols, a_size, res_size, aslc, disp_name[native & 3], magn, rep))
     return;
   rng_t* r = crng();
   const MODULE* mod = get_module(N, FFT64, native);
@@ -283,6 +284,20 @@ void run_C02(void) {
         if (!th && ALL_N[ni] > 4096) continue;
         concurrent_case(ALL_N[ni], native, ALL_N[ni] <= 64 ? 8 : 4, rep);
       }
+  // the two mixed CPU-feature configurations (avx2 without fma, fma without avx2): the VMP kernels are gated on avx2, the reim4
+  // block kernels and the FFT on fma
+  {
+    static const uint64_t MN[] = {2, 4, 8, 16, 64, 1024};
+    unsigned mc = 0;
+    for (size_t ni = 0; ni < ARRAY_LEN(MN); ni++)
+      for (int cfg = DISP_AVX2_ONLY; cfg <= DISP_FMA_ONLY; cfg++)
+        for (uint64_t nrows = 1; nrows <= (MN[ni] <= 64 ? 5u : 3u); nrows++)
+          for (uint64_t ncols = 1; ncols <= (MN[ni] <= 64 ? 5u : 2u); ncols++) {
+            mc++;
+            if (!th && MN[ni] >= 16 && (mc % 3)) continue;
+            one_case(MN[ni], nrows, ncols, nrows + (mc % 3) - 1, ncols + ((mc / 3) % 3) - 1, mc % 3, cfg, (int)(mc % 5 == 0), 4000);
+          }
+  }
   // every row count 1..320 (no value of a size parameter is special to the property; blocked loops have their own ideas)
   for (uint64_t nrows = 1; nrows <= 320; nrows++) {
     const uint64_t N = (nrows & 1) ? 8 : 16, ncols = 1 + nrows % 3;
@@ -309,5 +324,16 @@ void run_C02(void) {
       uint64_t as = (h >> 12) % (nrows + 3), rs = (h >> 20) % (ncols + 3);
       one_case(N, nrows, ncols, as, rs, (unsigned)(h >> 28) % 3, (int)((h >> 30) & 1), 0, t);
     }
+  }
+  // the entry points of this property called a second time on the SAME buffers holding other data (new values, two limbs exchanged,
+  // one word moved between limbs): must equal a fresh call on that data (results or operands remembered by address)
+  {
+    static const char* const RNAMES[] = {"vmp_prepare_contiguous", "vmp_apply_dft", "vmp_apply_dft_to_dft", "fft64_vmp_apply_dft_ref", "fft64_vmp_apply_dft_avx", "fft64_vmp_apply_dft_to_dft_ref", "fft64_vmp_apply_dft_to_dft_avx", "fft64_vmp_prepare_contiguous_ref", "fft64_vmp_prepare_contiguous_avx"};
+    static const uint64_t RN[] = {2, 16, 64, 1024};
+    for (size_t i = 0; i < ARRAY_LEN(RN); i++)
+      for (int cfg = DISP_NATIVE; cfg >= DISP_GENERIC; cfg--) {
+        if (cfg == DISP_GENERIC && (i & 1)) continue;
+        ops_recontent_case("C02 entry points", RNAMES, (int)ARRAY_LEN(RNAMES), RN[i], cfg, G.thorough ? 40 : 6, (unsigned)i, "same_buffers_other_data_calls");
+      }
   }
 }
